@@ -69,6 +69,9 @@ pub struct Profile {
     pub allow_clear: bool,
     /// probability (percent) of a parallel phase at the end of a frame
     pub par_pct: u64,
+    /// bulk histories: always a wide, densely kept index space; creation bursts and very large
+    /// deletion batches (several 64-handle blocks)
+    pub bulk: bool,
 }
 
 #[derive(Clone, Copy, Debug, PartialEq, Eq)]
@@ -139,12 +142,13 @@ pub fn profile(name: &str) -> Profile {
         maintain_pct: 60,
         slots: (1, 2),
         kinds: KindFilter::Few,
-        wide_pct: 3,
+        wide_pct: 6,
         faults: false,
         fault_pct: 0,
         stale_pct: 10,
         allow_clear: true,
         par_pct: 2,
+        bulk: false,
     };
     match name {
         "lifecycle" => base,
@@ -154,6 +158,32 @@ pub fn profile(name: &str) -> Profile {
             ops: (2, 12),
             ..base
         },
+        "bulk" => {
+            let w = vec![
+                (DeleteBatch, 30),
+                (CreateIterNow, 16),
+                (CreateIterDeferred, 10),
+                (Maintain, 10),
+                (CreateNow, 5),
+                (CreateDeferred, 4),
+                (DeleteNow, 5),
+                (DeleteDeferred, 5),
+                (DeleteAll, 1),
+                (Insert, 6),
+                (Observe, 1),
+            ];
+            Profile {
+                name: "bulk",
+                weights: w,
+                frames: (2, 6),
+                ops: (2, 8),
+                slots: (1, 2),
+                wide_pct: 100,
+                bulk: true,
+                par_pct: 0,
+                ..base
+            }
+        }
         "stale" => {
             let mut w = lifecycle_weights();
             w.push((StaleProbe, 40));
@@ -390,10 +420,21 @@ impl Gen {
             .into_iter()
             .map(|k| (k, *self.rng.pick(&ALL_REG_PATHS)))
             .collect();
-        let (prealloc, keep_every) = if self.rng.chance(self.prof.wide_pct, 100) {
-            match self.rng.below(10) {
+        let (prealloc, keep_every) = if self.prof.bulk {
+            match self.rng.below(6) {
+                0 | 1 => (300, 2),
+                2 => (520, 3),
+                3 => (200, 1),
+                4 => (4_200, 29),
+                _ => (8_300, 61),
+            }
+        } else if self.rng.chance(self.prof.wide_pct, 100) {
+            match self.rng.below(12) {
                 0 => (263_000, 9_001),
-                1..=4 => (4_200, 131),
+                1..=3 => (4_200, 131),
+                4..=5 => (4_200, 29),
+                6 => (8_300, 61),
+                7..=8 => (300, 2),
                 _ => (130, 7),
             }
         } else {
@@ -642,7 +683,7 @@ impl Gen {
 
     fn gen_cat(&mut self, ex: &Exec, cat: Cat) -> Option<OpKind> {
         use Cat::*;
-        let many = ex.model.live_count() > 40;
+        let many = ex.model.live_count() > if ex.cfg.prealloc > 0 { 220 } else { 40 };
         Some(match cat {
             CreateNow => {
                 if many {
@@ -654,7 +695,7 @@ impl Gen {
                 if many {
                     return None;
                 }
-                OpKind::CreateIterNow(self.rng.range(0, 4) as u8)
+                OpKind::CreateIterNow(if self.prof.bulk { self.rng.range(1, 130) } else { self.rng.range(0, 4) } as u8)
             }
             BuilderDropped => OpKind::BuilderDropped(self.comps(ex, 2)),
             CreateDeferred => {
@@ -668,10 +709,30 @@ impl Gen {
                     dropped: via == Via::BuildEntity && self.rng.chance(1, 3),
                 }
             }
-            CreateIterDeferred => OpKind::CreateIterDeferred(self.rng.range(0, 3) as u8),
+            CreateIterDeferred => OpKind::CreateIterDeferred(if self.prof.bulk { self.rng.range(1, 100) } else { self.rng.range(0, 3) } as u8),
             DeleteNow => OpKind::DeleteNow(if self.rng.chance(1, 8) { self.dead(ex)? } else { self.live(ex)? }),
             DeleteBatch => {
-                // mostly short batches; sometimes a large one (more than 16 handles)
+                // mostly short batches; sometimes a large one (more than 16 handles); with many
+                // live entities sometimes a very large one (several 64-handle blocks) with a dead
+                // or repeated handle far into the batch
+                if ex.model.live_count() > 66 && self.rng.chance(if self.prof.bulk { 3 } else { 1 }, if self.prof.bulk { 4 } else { 3 }) {
+                    let live = ex.model.live_handles();
+                    let take = self.rng.range(65, live.len().min(200) as u64) as usize;
+                    let mut hs: Vec<H> = live
+                        .iter()
+                        .map(|&hn| ex.model.hs[hn].href)
+                        .filter(|h| h.1 != u16::MAX)
+                        .take(take)
+                        .collect();
+                    if self.rng.chance(2, 3) && hs.len() > 65 {
+                        let pos = self.rng.range(64, hs.len() as u64 - 1) as usize;
+                        let bad = if self.rng.chance(1, 2) { self.dead(ex) } else { Some(hs[self.rng.usize_below(pos)]) };
+                        if let Some(b) = bad {
+                            hs.insert(pos, b);
+                        }
+                    }
+                    return Some(OpKind::DeleteBatch(hs));
+                }
                 let n = if self.rng.chance(1, 12) {
                     self.rng.range(17, 30) as usize
                 } else {
